@@ -133,7 +133,8 @@ type blockCrypt struct {
 	encbuf    []byte // encryption working buffer
 	decbuf    []byte // decryption working buffer
 	block     cipher.Block
-	blockSize int // cached block size
+	decBlock  cipher.Block // block used by Decrypt; differs from block only for ciphers with per-object scratch state
+	blockSize int          // cached block size
 }
 
 //go:nosplit
@@ -146,7 +147,7 @@ func (c *blockCrypt) Encrypt(dst, src []byte) {
 //go:nosplit
 func (c *blockCrypt) Decrypt(dst, src []byte) {
 	c.decMu.Lock()
-	decrypt(c.block, dst, src, c.decbuf)
+	decrypt(c.decBlock, dst, src, c.decbuf)
 	c.decMu.Unlock()
 }
 
@@ -154,6 +155,7 @@ func newBlockCrypt(block cipher.Block) BlockCrypt {
 	blockSize := block.BlockSize()
 	return &blockCrypt{
 		block:     block,
+		decBlock:  block,
 		blockSize: blockSize,
 		encbuf:    make([]byte, blockSize),
 		decbuf:    make([]byte, 2*blockSize),
@@ -201,7 +203,15 @@ func NewSM4BlockCrypt(key []byte) (BlockCrypt, error) {
 	if err != nil {
 		return nil, err
 	}
-	return newBlockCrypt(block), nil
+	// the SM4 implementation keeps scratch buffers inside the cipher object, so the
+	// encrypting and the decrypting goroutine must not share one object
+	decBlock, err := sm4.NewCipher(key)
+	if err != nil {
+		return nil, err
+	}
+	c := newBlockCrypt(block).(*blockCrypt)
+	c.decBlock = decBlock
+	return c, nil
 }
 
 // NewTwofishBlockCrypt https://en.wikipedia.org/wiki/Twofish
